@@ -60,7 +60,7 @@ fn decompose(rng: &mut Rng, total: u64) -> Vec<u64> {
 }
 
 /// A generated program: W1's valid operations batched into one text.
-thread_local! { static SUPPORTED: std::sync::Arc<std::collections::BTreeSet<String>> = crate::w1::load_supported("/verif/baselines/w1_supported.txt"); }
+thread_local! { static SUPPORTED: std::sync::Arc<std::collections::BTreeSet<String>> = crate::w1::load_supported(&format!("{}/baselines/w1_supported.txt", std::env::var("MECHSIM_VERIF").unwrap_or_else(|_| "/verif".to_string()))); }
 
 pub fn generated_program(rng: &mut Rng, with_assignments: bool) -> String { generated_program_without(rng, with_assignments, &[]) }
 
